@@ -543,9 +543,14 @@ EncTablesV4(T) ==
 RECURSIVE LastOf(_, _, _, _)
 LastOf(fmt, vals, ct, k) ==      \* index of the last format entry with content type ct, 0 if none
     IF k = 0 THEN 0 ELSE IF fmt[k][1] = Nat8(ct) THEN k ELSE LastOf(fmt, vals, ct, k - 1)
-NumField(H, fmt, vals, ct) ==
-    LET k == LastOf(fmt, vals, ct, Len(fmt)) IN
-    IF k = 0 THEN <<>> ELSE LET u == UdataOf(H, fmt[k][2], vals[k]) IN IF u = <<>> THEN <<>> ELSE u[1]
+(* numeric field: the last entry of that content type that has an unsigned *)
+(* value (parse_file_v5 keeps the previous value when udata_value is None) *)
+RECURSIVE NumFieldFrom(_, _, _, _, _)
+NumFieldFrom(H, fmt, vals, ct, k) ==
+    IF k = 0 THEN <<>>
+    ELSE LET u == IF fmt[k][1] = Nat8(ct) THEN UdataOf(H, fmt[k][2], vals[k]) ELSE <<>> IN
+         IF u # <<>> THEN u[1] ELSE NumFieldFrom(H, fmt, vals, ct, k - 1)
+NumField(H, fmt, vals, ct) == NumFieldFrom(H, fmt, vals, ct, Len(fmt))
 DirMeaningV5(H, fmt, vals) == LET k == LastOf(fmt, vals, LNCT_path, Len(fmt)) IN AttrOf(H, fmt[k][2], vals[k])
 (* md5: every DW_LNCT_MD5 entry that is a 16-byte block overwrites *)
 RECURSIVE Md5Of(_, _, _, _)
